@@ -1097,16 +1097,21 @@ func (x *explorer) hugeRealloc(capPages, newPages uint32) bool {
 	return x.cfg.Alloc == "go" && newPages > capPages && newPages >= hugePages
 }
 
-// allowHugeRealloc is the per-tier bound on those transitions (documented in NOTES.md).
+// allowHugeRealloc is the per-tier bound on those transitions (documented in NOTES.md). Each one costs
+// 4 GiB of page faults (5-30 s on this class of machine; page-fault throughput is a machine-wide bottleneck).
 func (x *explorer) allowHugeRealloc(depth int, pages uint32, op Op) bool {
 	c := x.cfg
+	if depth != 0 || op.Delta != c.Bound()-pages {
+		return false
+	}
 	switch x.tier.Name {
 	case "thorough":
-		return depth == 0 || (depth == 1 && !c.HasMax && op.Delta == c.Bound()-pages)
+		// every configuration: from the initial state straight to the bound, by the host and by the fused guest
+		// function; the designated declarations (min=1, max absent): by every source.
+		return x.expandHugeStates() || op.Src == "host" || strings.HasSuffix(op.Src, "f")
 	default:
-		// two transitions in total: each costs 4 GiB of page faults (5-30 s on this class of machine, and
-		// page-fault throughput is a machine-wide bottleneck)
-		if depth != 0 || c.HasMax || c.Min != 1 || x.engine != "compiler" || op.Delta != c.Bound()-pages {
+		// two transitions in total
+		if c.HasMax || c.Min != 1 || x.engine != "compiler" {
 			return false
 		}
 		if c.Imported {
@@ -1116,10 +1121,18 @@ func (x *explorer) allowHugeRealloc(depth int, pages uint32, op Op) bool {
 	}
 }
 
+// expandHugeStates: states that can only be re-created by repeating a multi-GiB reallocation are expanded
+// (their outgoing transitions enumerated) only for the designated declarations of the thorough tier;
+// elsewhere they are compared completely but are leaves.
+func (x *explorer) expandHugeStates() bool {
+	return x.tier.Name == "thorough" && !x.cfg.HasMax && x.cfg.Min == 1
+}
+
 type stateRec struct {
-	path  []Op
-	pages uint32
-	cap   uint32
+	path    []Op
+	pages   uint32
+	cap     uint32
+	viaHuge bool // the history contains a multi-GiB reallocation
 }
 
 // explore runs the BFS for one engine.
@@ -1136,7 +1149,7 @@ func (x *explorer) explore() {
 	root.enter(true)
 	x.res.States++
 	seen := map[string]bool{root.key(): true}
-	queue := []stateRec{{nil, root.m.pages, root.mi.Cap}}
+	queue := []stateRec{{nil, root.m.pages, root.mi.Cap, false}}
 	cur := root
 	for qi := 0; qi < len(queue); qi++ {
 		st := queue[qi]
@@ -1168,6 +1181,7 @@ func (x *explorer) explore() {
 		}
 		ops = append(ops, changing...)
 		for _, op := range ops {
+			opHuge := st.viaHuge || (op.Delta != 0 && uint64(st.pages)+uint64(op.Delta) <= uint64(x.cfg.Bound()) && x.hugeRealloc(st.cap, st.pages+op.Delta))
 			if cur == nil {
 				cur = x.newInst()
 				if cur == nil {
@@ -1197,8 +1211,10 @@ func (x *explorer) explore() {
 				if !seen[k] {
 					seen[k] = true
 					x.res.States++
-					if depth+1 < x.tier.Depth {
-						queue = append(queue, stateRec{append([]Op{}, cur.path...), cur.m.pages, cur.mi.Cap})
+					if depth+1 < x.tier.Depth && opHuge && !x.expandHugeStates() {
+						x.res.out("state-not-expanded(re-creation needs a multi-GiB reallocation)")
+					} else if depth+1 < x.tier.Depth {
+						queue = append(queue, stateRec{append([]Op{}, cur.path...), cur.m.pages, cur.mi.Cap, opHuge})
 					} else if depth+1 > x.res.MaxDepth {
 						x.res.MaxDepth = depth + 1
 					}
